@@ -66,7 +66,10 @@ def run(rep, tier, seed):
     docs = list(GOOD) + list(BAD) + list(EMPTY_OK)
     for f in sorted(glob.glob(os.path.join(vlib.REPO, "examples", "*.xml")))[: (20 if big else 6)]:
         docs.append(open(f, encoding="utf-8").read())
-    cfgs = [{}, {"add_metadata": True}, {"seed": 7, "theme": "dark"}, {"debug": True, "border": 9}]
+    cfgs = [{}, {"add_metadata": True}, {"seed": 7, "theme": "dark"}, {"debug": True, "border": 9},
+            # one variation of every configuration field: requests that differ in nothing else must not share results
+            {"font_size": 5.0}, {"font_family": "serif"}, {"background": "lightyellow"}, {"scale": 2.0}, {"border": 0},
+            {"theme": "bold"}, {"theme": "glass"}, {"add_auto_styles": False}, {"svg_style": "max-width: 100%"}, {"seed": 99}]
     keys = [(d, c) for d in docs for c in cfgs]
     # T measured by fresh library processes (one process per key batch)
     cases = [{"k": f"t{j}", "xml": d, "cfg": c} for j, (d, c) in enumerate(keys)]
@@ -97,7 +100,7 @@ def run(rep, tier, seed):
     # (b) the command
     wd = vlib.workdir("c07cli")
     modes = ["file-file", "stdin-stdout", "file-stdout", "stdin-file"]
-    cli_keys = [(d, c) for (d, c) in keys if set(c) <= {"add_metadata", "seed", "theme", "debug", "border"}]
+    cli_keys = [(d, c) for (d, c) in keys]
     rnd.shuffle(cli_keys)
     for j, (d, c) in enumerate(cli_keys[: (120 if big else 40)]):
         mode = modes[j % 4]
